@@ -40,6 +40,13 @@ contract(
     params=dict(old=TOpt(Meta), new=TOpt(Meta), cmp_key=TOpt(MetaKeyFn)),
     returns=TStr,
     ensures=lambda c: c.result == meta_spec(c.old, c.new, c.cmp_key),
+    lemmas={
+        # C13: the metadata-based update() carries a hash over only on UNCHANGED under the *full* Meta equality;
+        # that equality must cover the validity triple (inode, mtime, size)
+        "unchanged_covers_token": lambda c: Implies(
+            And(c.cmp_key.is_none, c.old.is_some, c.new.is_some, c.result == UNCHANGED),
+            And(c.old.val.inode == c.new.val.inode, c.old.val.mtime == c.new.val.mtime, c.old.val.size == c.new.val.size)),
+    },
     modular=True,
     pure=True,
     props=["C08", "C13"],
